@@ -1,6 +1,7 @@
 use crate::core::{CaseOut, Run, Verdict};
 
 pub mod c01;
+pub mod c01x;
 pub mod c02;
 pub mod c03;
 pub mod c04;
